@@ -10,3 +10,4 @@ EXPLANATION = (
 UNDECIDED = "the 50,000-base window accumulator ValueIter::next (per-base sums, run-length re-encoding across window boundaries, held-back last value): arithmetic over runtime data."
 ASSUMPTIONS = [K.A_PRED, "merge_into is only called with truly overlapping non-empty values (its callers check both ends)"]
 OBLIGATIONS = [K.MERGE_QUERY, K.LOWERCASE, K.OUTPUT_TYPE, K.TRANSFORM, K.MERGE_INTO, K.FILL, K.WIG_KEEP]
+OBLIGATIONS = OBLIGATIONS + [K.WINDOW]
